@@ -481,9 +481,9 @@ class Worker(threading.Thread):
         w = cmd[1]
         try:
           w()                                   # returns when the propagated scope is left normally
-          self.outbox.put(('ok', False))
+          self.outbox.put(('ok', {'out': 'ok', 'cbk': 0}))
         except _Boom:
-          self.outbox.put(('ok', False))        # ... or by exception (not suppressed)
+          self.outbox.put(('ok', {'out': 'propagated', 'cbk': 0}))        # ... or by exception (not suppressed)
         except Exception as e:  # pylint: disable=broad-except
           self.outbox.put(('error', f'{type(e).__name__}: {e}'))
       elif kind == 'observe':
